@@ -2,9 +2,10 @@
 from vlib.core import Case, hx
 
 ID = "C14"
+NEEDS_CLI = True
 RULE = ("ops path.parse / path.for_index / hdk.derive on text vs printed form: component values 0,1,2^31-1,2^31,2^32-1,2^32,2^64 "
         "and random, with/without ', depths 1..12, canonical and non-canonical spellings, malformed stream; "
-        "non-trivial = distinct text; judge = grammar of the statement (canonical must be accepted and print back, "
+        "a random sample of the cases is re-run through every sub-command that reaches the same code (vlib/routes.py); non-trivial = distinct text; judge = grammar of the statement (canonical must be accepted and print back, "
         "non-standard must be an error)")
 EXHAUSTIVE_SWEEPS = {"quick": ["every boundary value x {hardened, normal} at depth 1 and as last of 5"],
                      "thorough": ["every boundary value x {hardened, normal} at depth 1 and as last of 5"]}
@@ -44,6 +45,10 @@ def gen(rng, tier):
                  "m/2147483648'", "m/2147483647'", "m/+2147483648", "m/m/0", "m/m/44'/60'/0'/0/0", "m/m/m/1'/2", "mm/0", "m/M/0", "m/m", "m/m/", "m/0/m/1", "m/m0", "mm/", "m/ m/0", "m/0000000000000000000000000000001", "44'/60'/0'/0/0", "m/44h/60h"]
     for s in malformed:
         add(s, "malformed")
+    from vlib.core import perturb
+    for t in ("m/44'/60'/0'/0/0", "m/0", "m/2147483647'/1"):
+        for v in perturb(t, "m/"):
+            add(v, "perturbed")
     for _ in range(n // 3):
         depth = rng.randint(1, 5)
         s = bytearray(("m/" + "/".join(comp(rng) for _ in range(depth))).encode())
@@ -63,6 +68,8 @@ def gen(rng, tier):
     seed = "000102030405060708090a0b0c0d0e0f"
     for s in []:
         cases.append(Case("hdk.derive %s %s" % (seed, hx(s)), tags=("derive",)))
+    from vlib import routes
+    cases += routes.add_routes(cases, rng, 80, tier)
     return cases
 
 
@@ -73,3 +80,8 @@ def shrink_candidates(line):
     s = bytes.fromhex(args[0]).decode("utf-8", "replace")
     for i in range(len(s)):
         yield "path.parse " + hx(s[:i] + s[i + 1:])
+
+
+def run_cli(case):
+    from vlib import cli
+    return cli.run_cli(case)
